@@ -8,6 +8,47 @@ COMMON_NOTE = ("Trusted: Coq 8.16.1 kernel + vm_compute; the hand-written model 
                "per-property modelling assumptions are listed in the evidence file and DESIGN.md section 5.")
 
 CHECKS = {
+ "C02": dict(
+   text="Theorem C02_iff (Properties/C02.v): for every token record, key set, configuration and instant, the executable model of "
+        "parseJWT/VerifyJWTSignatureAndClaims/JWT.Verify accepts exactly when the specification written from the property text holds "
+        "(three parts, RS/PS/ES allow-list, key selected by kid of the same family, genuine signature over the exact bytes, iss, aud, "
+        "exp/iat/nbf tolerances exact to the nanosecond, non-empty sub); corollaries for alg none/HS*, key confusion, unknown kid, changed "
+        "text or signature bytes, wrong claim types. The model follows the code through switches MEASURED on every run (tolerances, "
+        "signature-length check, saturating time conversion, nbf typing); ~1700 generated tokens (9 algorithms, ~60 single deviations, "
+        "pairs, malformed stream) are run on the code, on the model and through an independent strict reference verifier.",
+   design_ref="DESIGN.md section 4 C02",
+   technique="Rocq proof of an iff between model and specification over all token records; measured-parameter reflection; in-Coq differential correspondence",
+   note="RSA/ECDSA/SHA are oracles (symbolic signatures cross-checked against Go's stdlib used strictly); NumericDate read at whole seconds; |now| <= 2^61 s; panic freedom is supported by the malformed stream only (testing); " + COMMON_NOTE),
+ "C13": dict(
+   text="Theorems (Properties/C13.v) for every capacity >= 1 and every history: the cache never exceeds capacity; inserting a new key into a "
+        "full cache removes exactly one entry, the first expired one in recency order if any, else the least recently used (lookups and "
+        "stores count as use); hits and stores move the key to the back and keep the others' order; retention (an unexpired entry survives "
+        "while fewer than capacity other keys are used since its last use); a generic lock theorem (any interleaving of lock-protected "
+        "operations equals the sequential run in lock-acquisition order) instantiated with lock facts extracted from cache.go. "
+        "Correspondence: exhaustive enumeration of short histories plus random overflow histories, state compared after every step; "
+        "the history monitor of the theorem is applied to the implementation. Concurrency is PARTIAL: -race stress is supporting testing.",
+   design_ref="DESIGN.md section 4 C13",
+   technique="Rocq proof: rank/recency invariants by induction, generic lock linearizability theorem, go/ast lock facts; in-Coq differential correspondence; -race stress (testing)",
+   note="Go mutex semantics and memory model assumed; lock discipline read from source text (tools/lockfacts); " + COMMON_NOTE),
+ "C19": dict(
+   text="Theorems (Properties/C19.v) about an exact-integer model of x/time/rate's Allow: for every arrival list, with (rate, burst) = (n, n) "
+        "at most 2n-1 verifications are admitted in any one-second window and at least as many as a reference n/s bucket on every prefix; "
+        "the parameters the code builds through New() are MEASURED on every run and must equal (n, n) (C19_construction, by vm_compute). "
+        "The real limiter of an instance is driven with explicit instants and compared decision by decision with the model; the monitor is "
+        "applied to the real decisions. 'Refused without being performed' and 'sessions exempt' are supporting tests.",
+   design_ref="DESIGN.md section 4 C19",
+   technique="Rocq proof: token-bucket invariant and window bound by induction; measured-parameter reflection; in-Coq differential correspondence",
+   note="float arithmetic of x/time/rate abstracted to exact arithmetic (decisions within 1e-8 token of the threshold are skipped and counted); " + COMMON_NOTE),
+ "C20": dict(
+   text="Theorems (Properties/C20.v) about a model of discovery (fetch, bounded retry, metadata cache, initialisation loop, refresh tick, the "
+        "readiness gate of ServeHTTP): while not ready every request gets 503/408 and nothing is forwarded or redirected; whenever ready the "
+        "endpoints are those of the latest successful fetch; for EVERY finite fault list followed by a healthy provider the retrying "
+        "initialisation becomes ready within an explicit linear bound of modelled time. Which initialisation the code has is MEASURED. "
+        "Correspondence: instances built with New() against a fake provider with scripted fault sequences, in real time. Liveness in "
+        "wall-clock time is PARTIAL (real timers and scheduling are outside the model).",
+   design_ref="DESIGN.md section 4 C20",
+   technique="Rocq proof: state-machine invariants and induction over fault lists; measured-parameter reflection; real-time correspondence against a scripted fake provider",
+   note="the hourly refresh tick is exercised through an accessor that copies the loop body; 30 s pause cap and 5 min cut-off transcribed from source; " + COMMON_NOTE),
  "C12": dict(
    text="Theorems (Properties/C12.v) prove, for the executable model of cache.go and for every capacity and every finite "
         "history of Set/Get/Delete/Cleanup of any length, that every lookup returns only the latest stored, undeleted, "
